@@ -23,6 +23,27 @@ pub enum Part {
     BinFork { sizes: Vec<u8>, concat_in_main: bool },
     /// a child that receives binaries and returns their concatenation length + hash
     BinStream { chunks: Vec<u8> },
+    /// spawn a closure capturing two heap binaries, optionally with a heap binary argument
+    SpawnCaps { a: u8, b: u8, arg: Option<u8>, nested: bool },
+    /// await the same finished process twice; its result holds a heap binary
+    AwaitTwiceBin { n: u8, thrice: bool },
+    /// receiver that first takes the message of a given length through a filter, then the rest
+    FilterBin { sizes: Vec<u8>, pick: u8 },
+    /// select with two filter sources while messages keep arriving (racy: invariants only)
+    TwoFilters { sizes: Vec<u8>, l1: u8, l2: u8 },
+    /// a process that ends with binaries still in its mailbox
+    MailboxLeftover { sizes: Vec<u8>, take: u8 },
+}
+
+impl Part {
+    /// Parts whose outcome may legitimately depend on the schedule (used only where the oracle
+    /// does not compare results across schedules).
+    pub fn racy(&self) -> bool {
+        matches!(self, Part::TwoFilters { .. })
+    }
+    pub fn heap_heavy(&self) -> bool {
+        matches!(self, Part::BinFork { .. } | Part::BinStream { .. } | Part::SpawnCaps { .. } | Part::AwaitTwiceBin { .. } | Part::FilterBin { .. } | Part::TwoFilters { .. } | Part::MailboxLeftover { .. })
+    }
 }
 
 #[derive(Clone, Debug)]
@@ -44,11 +65,30 @@ pub fn part() -> impl Strategy<Value = Part> {
     ]
 }
 
+/// Binary-heavy parts for C06 (includes the confluent binary parts above).
+pub fn heap_part() -> impl Strategy<Value = Part> {
+    prop_oneof![
+        2 => (prop::collection::vec(0u8..40, 1..4), any::<bool>()).prop_map(|(sizes, concat_in_main)| Part::BinFork { sizes, concat_in_main }),
+        2 => prop::collection::vec(0u8..20, 1..4).prop_map(|chunks| Part::BinStream { chunks }),
+        3 => (0u8..12, 0u8..12, prop::option::of(0u8..12), any::<bool>()).prop_map(|(a, b, arg, nested)| Part::SpawnCaps { a, b, arg, nested }),
+        3 => (0u8..12, any::<bool>()).prop_map(|(n, thrice)| Part::AwaitTwiceBin { n, thrice }),
+        3 => (prop::collection::vec(0u8..8, 1..5), any::<u8>()).prop_map(|(sizes, pick)| Part::FilterBin { sizes, pick }),
+        3 => (prop::collection::vec(0u8..6, 1..6), 0u8..6, 0u8..6).prop_map(|(sizes, l1, l2)| Part::TwoFilters { sizes, l1, l2 }),
+        2 => (prop::collection::vec(0u8..8, 1..5), 0u8..3).prop_map(|(sizes, take)| Part::MailboxLeftover { sizes, take }),
+        1 => (prop_oneof![0u16..40, 40u16..400], any::<bool>()).prop_map(|(work, twice)| Part::LateAwait { work, twice }),
+    ]
+}
+
+pub fn heap_prog() -> impl Strategy<Value = GProg> {
+    prop::collection::vec(heap_part(), 1..4).prop_map(|parts| GProg { parts })
+}
+
 pub fn gprog() -> impl Strategy<Value = GProg> {
     prop::collection::vec(part(), 1..4).prop_map(|parts| GProg { parts })
 }
 
 pub const PRELUDE: &str = "\
+'list = Nil | Cons['bin, ^],
 loop = #['int, 'int] { =[n, acc], { | [n, 0] __integer_compare__ =0 => acc | [[n, 1] __integer_subtract__, [acc, n] __integer_add__] ^ } },
 w = #'int { [~, 0] loop },
 sink = #['int, 'int] { =[k, acc], { | [k, 0] __integer_compare__ =0 => acc | [[k, 1] __integer_subtract__, [acc, !#'int] __integer_add__] ^ } },
@@ -56,6 +96,8 @@ stage = #[(@'int), 'int, 'int] { =[next, k, acc], { | [k, 0] __integer_compare__
 child = #[(@'int), 'int] { =[parent, k], { | [k, 0] __integer_compare__ =0 => Done | { !#'int =x, [x, x] __integer_multiply__ parent, [&parent, [k, 1] __integer_subtract__] ^ } } },
 spawner = #['int, 'int] { =[k, n], h1 = n @w, h2 = n @w, [!h1, !h2] __integer_add__ =base, !#'int =first, [[k, 1] __integer_subtract__, [base, first] __integer_add__] ^sink },
 mkbin = #'int { =n, [[0xab, n] __binary_repeat__, 0xcdef] __binary_concat__ },
+drain = #'int { =n, ! [#'bin, 30] { | =[] => n | [n, 1] __integer_add__ ^ } },
+takeall = #['int, 'list] { =[k, acc], { | [k, 0] __integer_compare__ =0 => acc | [[k, 1] __integer_subtract__, Cons[!#'bin, acc]] ^ } },
 binsink = #['int, 'bin] { =[k, acc], { | [k, 0] __integer_compare__ =0 => [acc __binary_length__, acc __binary_hash32__, acc] | [[k, 1] __integer_subtract__, [acc, !#'bin] __binary_concat__] ^ } }";
 
 fn permute(n: usize, seed: u16) -> Vec<usize> {
@@ -179,6 +221,86 @@ pub fn render(g: &GProg) -> Rendered {
                     f.push(format!("[!{}_0, !{}_1] __binary_concat__", v("bf"), v("bf")));
                 }
                 lines.push(format!("{} = [{}]", v("r"), f.join(", ")));
+                results.push(v("r"));
+            }
+            Part::SpawnCaps { a, b, arg, nested } => {
+                has_binaries = true;
+                lines.push(format!("{} = {a} mkbin", v("ca")));
+                lines.push(format!("{} = {b} mkbin", v("cb")));
+                let body = if *nested { format!("[[{}, 1], P[x: {}]]", v("ca"), v("cb")) } else { format!("[{}, {}]", v("ca"), v("cb")) };
+                match arg {
+                    Some(n) => {
+                        lines.push(format!("{} = {n} mkbin", v("cc")));
+                        let body = if *nested { format!("[[{}, $], P[x: {}]]", v("ca"), v("cb")) } else { format!("[{}, {}, $]", v("ca"), v("cb")) };
+                        lines.push(format!("{} = {} @#'bin {{ {body} }}", v("cp"), v("cc")));
+                    }
+                    None => lines.push(format!("{} = @#{{ {body} }}", v("cp"))),
+                }
+                processes += 1;
+                lines.push(format!("{} = [!{}, {}, {}]", v("r"), v("cp"), v("ca"), v("cb")));
+                results.push(v("r"));
+            }
+            Part::AwaitTwiceBin { n, thrice } => {
+                has_binaries = true;
+                has_late_await = true;
+                lines.push(format!("{} = {n} @mkbin", v("tw")));
+                processes += 1;
+                // each await is its own sequence step and only the length is kept, so the awaited
+                // binary itself is dropped between the awaits
+                let reps = if *thrice { 3 } else { 2 };
+                let mut f = Vec::new();
+                for k in 0..reps {
+                    lines.push(format!("{}_{k} = !{} __binary_length__", v("tl"), v("tw")));
+                    f.push(format!("{}_{k}", v("tl")));
+                }
+                lines.push(format!("{} = [{}]", v("r"), f.join(", ")));
+                results.push(v("r"));
+            }
+            Part::FilterBin { sizes, pick } => {
+                has_binaries = true;
+                has_messages = true;
+                let k = sizes.len();
+                let want = sizes[(*pick as usize) % k] as usize + 2; // mkbin n has length n + 2
+                lines.push(format!(
+                    "{} = @#{{ ! [#'bin {{ __binary_length__ ={want} => Ok }}] =first, [{}, Nil] takeall =rest, [first, rest] }}",
+                    v("fb"),
+                    k - 1
+                ));
+                processes += 1;
+                for n in sizes {
+                    lines.push(format!("{n} mkbin {}", v("fb")));
+                }
+                lines.push(format!("{} = !{}", v("r"), v("fb")));
+                results.push(v("r"));
+            }
+            Part::TwoFilters { sizes, l1, l2 } => {
+                has_binaries = true;
+                has_messages = true;
+                // the receiver runs two filtered receives with a timeout so it never hangs, then ends
+                lines.push(format!(
+                    "{} = @#{{ ! [#'bin {{ __binary_length__ ={} => Ok }}, #'bin {{ __binary_length__ ={} => Ok }}, 40] =m1, ! [#'bin {{ __binary_length__ ={} => Ok }}, #'bin, 40] =m2, 0 drain }}",
+                    v("tf"),
+                    *l1 as usize + 2,
+                    *l2 as usize + 2,
+                    *l2 as usize + 2
+                ));
+                processes += 1;
+                for n in sizes {
+                    lines.push(format!("{n} mkbin {}", v("tf")));
+                }
+                lines.push(format!("{} = !{}", v("r"), v("tf")));
+                results.push(v("r"));
+            }
+            Part::MailboxLeftover { sizes, take } => {
+                has_binaries = true;
+                has_messages = true;
+                let t = (*take as usize).min(sizes.len());
+                lines.push(format!("{} = @#{{ ! [#'bin {{ [] }}, 0] Ok, [{t}, Nil] ^takeall }}", v("ml")));
+                processes += 1;
+                for n in sizes {
+                    lines.push(format!("{n} mkbin {}", v("ml")));
+                }
+                lines.push(format!("{} = !{}", v("r"), v("ml")));
                 results.push(v("r"));
             }
             Part::BinStream { chunks } => {
